@@ -18,8 +18,15 @@ Correspondence (model driver vs the real code on a fresh native build), per oper
          idxcells_area_filled as a set, `binary_fill_holes` being a parameter of the model (the mask the model
          builds is filled by scipy in the harness and handed back to the model)
   fpath  Catchment.compute_flowpathlengths / c_hydrodiy_gis.delineate_flowpathlengths_in_catchment
-         end cell exact, length within 4 ulp (in practice bit-equal)
-  river  hydrodiy.gis.grid.delineate_river                      cells, dx, dy exact; dist, x, y within 4 ulp
+         end cell exact, length within max(4, #steps) ulp — a rounded sum of #steps terms (in practice bit-equal)
+  river  hydrodiy.gis.grid.delineate_river                      cells, dx, dy exact; x, y within 4 ulp, dist (row i: a sum of i
+         terms) within max(4, i) ulp
+  chain  iterated Catchment.downstream (one scalar call per step) and the river over the same cells, against the
+         functions the theorems are STATED with: chainCells / chainCell / chainSteps (length = the river's last
+         distance) / goesOnCount (how many flow-path iterations go on)
+  reach  idxcells_area against `reachArea`, the property's wording by brute force over the grid (grids <= 30 cells)
+  count / esri (once per run)  countBy at Float = the doubles n and 2n; esriDx / esriDy / esriPos and the codes found there
+         against the oracle's ESRI table and the FLOWDIRCODE array the real code hands to its kernels
 Open outcomes: the property only asks for 'an error or a bounded result' on flow cycles. Where the MODEL's own predicates
 say so — `cycleThroughOutlet` (area; proved equivalent to a cycle through the outlet), `chainCyclic` (river), `flowPathCapped`
 (a flow-path row whose walk used all its iterations) — the driver flags the reply and only 'error, or a result within the
@@ -45,15 +52,27 @@ x inlet subsets (all for <= 3 cells, the empty set + random ones beyond) x buffe
 ample}; structured — uniform-direction grids, serpentine single-chain grids (path length = nval - 1), 1- and
 2-column grids (diagonal steps with |Δidx| = 1), spanning trees draining to an outlet with inlets chosen ON the
 tree, cycles through and off the outlet; random grids to 8x8 (thorough 12x12) over the same alphabet plus other
-invalid codes; histories — 2-8 calls on ONE Catchment object (D delineate_area, F compute_flowpathlengths, S / G
-catchment.flowdir.data edited in place / re-assigned, U / W / R queries, E the arrays returned by the previous call
-overwritten in place, K clone (source wiped), P pickle round trip, O edit of the grid handed to the constructor):
+invalid codes; sized — areas, rivers and cell lists of a prescribed LENGTH: every size 2..33 (thorough ..129), then exact
+multiples of 64 / 100 / 128 / 256 / 512 / 1000 / 1024 with their two neighbours up to 2048 cells (thorough: every multiple
+of 64 to 1024 and of 256 to 2048, then 3072 and 4096), on comb grids (4 mirror images), random spanning trees re-rooted in mid-stream and
+serpentines, pruned to the exact size by inlets, sinks / invalid codes or both, delineated through the Python wrapper
+with nval = size + 1, size + 2, block-aligned (256, 1024), 2 size + 3 and the default 10^6, through the kernel with
+size + 1 and size (one short: error); rivers of exactly that many cells with nval = length, length +- 1, block-aligned,
+default; flow-path lists of that length — what the wrappers do with a result (masking, counting, slicing, tables of
+len(area) rows) depends on its LENGTH, which exhaustive small grids never stretch; flow-path lists of exactly as many
+cells as the first cell's chain has steps to the outlet (the boundary of flowpath_length's hypothesis) and one more;
+histories — 2-18 calls on ONE Catchment object (D delineate_area, F compute_flowpathlengths, S / G
+catchment.flowdir.data edited in place / re-assigned, U / W / R queries, A the accessor idxcells_area and I isin(cell)
+— before any delineation, after a good one, after an edit, after a failed one —, E the arrays returned by the previous
+call overwritten in place, K clone (source wiped), P pickle round trip, O edit of the grid handed to the constructor):
 re-delineation with another outlet or other inlets whose area has the SAME size, a failed delineation between two
-good ones, tables asked after an edit — every answer compared with the Lean state machine (`hist` request) and with
+good ones, tables asked after an edit — every answer compared with the Lean state machine (`hist` request, run through
+the model's interleaved `callRun`) and with
 the oracle evaluated on the state the object has at that step (silent after O / K / P, where the property does not say
 which grid the object holds); malformed — cells / outlets / inlets / river starts off the grid, nval 0 and 1, the default
 nval = 10^6. A case is non-trivial when the reply is not an error and not empty.
 """
+import hashlib
 import json
 import math
 import os
@@ -162,6 +181,12 @@ def worker_main(native_dir):
                 elif k == "E":
                     scribble(last)
                     out.append({})
+                elif k == "A":
+                    a = c.idxcells_area                      # raises while no delineation is stored
+                    out.append({"ok": a.tolist()})
+                    last = [a]
+                elif k == "I":
+                    out.append({"ok": bool(c.isin(st[1]))})  # raises while no delineation is stored
                 else:
                     out.append({"err": -2, "msg": "unknown step"})
             except Exception as e:
@@ -226,6 +251,25 @@ def worker_main(native_dir):
                     res.append({"err": int(ierr)} if ierr > 0 else {"ok": o.tolist()})
                 elif kind == "hist":
                     res.append({"steps": run_history(nrows, ncols, fdarr, op[2])})
+                elif kind == "chain":
+                    # the downstream chain, one Catchment.downstream call per step (scalar argument), at most n cells;
+                    # and the distance the river kernel reports for its last cell
+                    outlet, start, n = op[2], op[3], op[4]
+                    c = catchment()
+                    cells, cur = [], start
+                    while len(cells) < n + 1:
+                        cells.append(int(cur))
+                        cur = int(c.downstream(int(cur))[0])
+                        if cur < 0:
+                            break
+                    r = {"ok": cells, "end": cur if cur < 0 else None}
+                    try:
+                        df = hg.delineate_river(c.flowdir, start, nval=n)
+                        r["river"] = [int(v) for v in df["idxcell"].values]
+                        r["dist"] = float(df["dist"].values[-1]) if len(df) else 0.0
+                    except Exception as e:
+                        r["river_err"] = err_of(e)
+                    res.append(r)
                 elif kind == "river" and api == "x":
                     start, nval, xll, yll, csz = op[2:7]
                     npoints = np.zeros(1, dtype=i64)
@@ -400,6 +444,7 @@ MODEL_ERR = {"areaFull": "full", "bufferFull": "full", "outletFull": "full"}
 class G:
     def __init__(self, nrows, ncols, fd):
         self.nrows, self.ncols, self.fd, self.n = nrows, ncols, fd, nrows * ncols
+        self.key = tuple(fd) if len(fd) <= 64 else hashlib.md5(repr(list(fd)).encode()).hexdigest()   # for count keys
         self._down = [self._d(c) for c in range(self.n)]
         self._up = [[] for _ in range(self.n)]
         for u, d in enumerate(self._down):
@@ -494,6 +539,172 @@ def tree_grid(rng, nrows, ncols, keep=0.9):
     return fd, outlet
 
 
+def comb_grid(nrows, ncols, flipx=False, flipy=False):
+    """every row drains along itself into one edge column, which drains along itself into a corner sink: the whole grid
+    drains to that corner; -> (fd, outlet). The four mirror images differ in the codes used and in listing order."""
+    along = 1 if flipx else 16                 # rows flow east / west
+    spine = 64 if flipy else 4                 # the edge column flows north / south
+    kcol = ncols - 1 if flipx else 0
+    rout = 0 if flipy else nrows - 1
+    fd = [along] * (nrows * ncols)
+    for r in range(nrows):
+        fd[r * ncols + kcol] = spine
+    outlet = rout * ncols + kcol
+    fd[outlet] = 0
+    return fd, outlet
+
+
+def snake_order(nrows, ncols):
+    """the cells of `serpentine(nrows, ncols)` in chain order (first cell -> sink)"""
+    return [r * ncols + (c if r % 2 == 0 else ncols - 1 - c) for r in range(nrows) for c in range(ncols)]
+
+
+def subtree_sizes(g, outlet):
+    """the cells draining to `outlet` (a tree), breadth first; -> (order, parent, number of cells draining through each)"""
+    order, par = [outlet], {outlet: None}
+    for c in order:
+        for u in g.up(c):
+            if u not in par:
+                par[u] = c
+                order.append(u)
+    size = {c: 1 for c in order}
+    for c in reversed(order[1:]):
+        size[par[c]] += size[c]
+    return order, par, size
+
+
+def prune_to_size(rng, g, outlet, m):
+    """cells whose removal (as inlets, or turned into sinks / invalid codes) leaves an area of exactly `m` cells,
+    on a grid where the cells draining to `outlet` form a tree with at least `m` cells; -> list of cut cells
+    (each cut removes a whole sub-tree; greedy, largest sub-tree that still fits first, with a random choice among ties)"""
+    order, par, size = subtree_sizes(g, outlet)
+    excess = size[outlet] - m
+    cuts, gone = [], set()
+    while excess > 0:
+        best = max((size[c] for c in order[1:] if c not in gone and size[c] <= excess), default=0)
+        if best == 0:
+            break
+        u = rng.choice([c for c in order[1:] if c not in gone and size[c] == best])
+        cuts.append(u)
+        stack = [u]
+        while stack:
+            x = stack.pop()
+            gone.add(x)
+            stack.extend(v for v in g.up(x) if par.get(v) == x)
+        p = par[u]
+        while p is not None:
+            size[p] -= best
+            p = par[p]
+        excess -= best
+    return cuts
+
+
+def size_schedule(rng, thorough):
+    """target numbers of cells: dense at the low end, then exact multiples of the usual block sizes (and their two
+    neighbours), then random ones — what the wrappers do with a result depends on its LENGTH (masking, counting,
+    slicing, tables of len(area) rows), which the small exhaustive grids never stretch"""
+    s = list(range(2, 130 if thorough else 34))
+    if thorough:
+        # (the cost of a case grows with the square of its size: most sizes stay under 2048, a few go to 4096)
+        for k in range(1, 17):
+            s += [64 * k, 256 * k] if k <= 8 else [64 * k]
+        for b in (128, 256, 512, 1024, 2048, 100, 1000):
+            s += [b - 1, b + 1]
+        s += [200, 500, 2000, 3072, 4096]
+        s += [rng.randint(130, 2048) for _ in range(8)]
+    else:
+        for b in (64, 100, 128, 256, 512, 1000, 1024):
+            for k in (1, 2):
+                s += [k * b - 1, k * b, k * b + 1]
+        s += [256 * k for k in range(3, 9)]
+        s += [rng.randint(34, 2048) for _ in range(4)]
+    return sorted(set(s))
+
+
+def sized_case(rng, m):
+    """a grid, an outlet and cut cells such that the delineated area has exactly m >= 2 cells (no flow cycle);
+    -> (nrows, ncols, fd, outlet, inlets, kind)"""
+    kind = rng.choice(["comb", "comb", "tree", "snake"] if m <= 300 else ["comb", "comb", "tree"])
+    if kind == "snake":
+        nc = rng.choice([1, 2, 3, 5, 16])
+        nr = -(-(m + rng.randint(0, 3)) // nc)
+        fd = serpentine(nr, nc)
+        order = snake_order(nr, nc)
+        return nr, nc, fd, order[m - 1], [], kind          # the m first cells of the chain drain to the m-th
+    if kind == "comb":
+        # walks of a comb are up to nrows + ncols steps long: keep them under ~150 steps on the large ones
+        nc = rng.choice([w for w in (2, 4, 8, 16, 32, 64) if w <= max(2, m) and (m <= 300 or m // w <= 120)])
+        nr = -(-(m + rng.randint(0, 2 * nc)) // nc)
+        fd, outlet = comb_grid(nr, nc, rng.random() < 0.5, rng.random() < 0.5)
+    else:
+        side = max(2, math.isqrt(m) + 1 + rng.randint(0, 3))
+        nr, nc = side, -(-(m + rng.randint(0, side)) // side)
+        fd, outlet = tree_grid(rng, nr, nc, keep=1.0)
+        fd[outlet] = rng.choice([0, 7, 0, DIR2CODE[(1, 0)] if outlet // nc == nr - 1 else 0])     # no cycle through the root
+        if rng.random() < 0.6:
+            # an outlet in the middle of the stream: the smallest sub-trees that still hold m cells
+            order, par, size = subtree_sizes(G(nr, nc, fd), outlet)
+            cands = sorted((c for c in order if size[c] >= m), key=lambda c: size[c])[:4]
+            outlet = rng.choice(cands)
+    g = G(nr, nc, fd)
+    cuts = prune_to_size(rng, g, outlet, m)
+    how = rng.random()
+    if how < 0.5:
+        return nr, nc, fd, outlet, cuts, kind + "/inlets"
+    # the same area without inlets: the cut cells stop draining (sink, invalid code); or a mix of both
+    inlets = []
+    for u in cuts:
+        if how < 0.8 or rng.random() < 0.5:
+            fd[u] = rng.choice([0, 7])
+        else:
+            inlets.append(u)
+    return nr, nc, fd, outlet, inlets, kind + "/sinks"
+
+
+def add_sized_cases(cs, rng, m, thorough):
+    nr, nc, fd, outlet, inlets, kind = sized_case(rng, m)
+    n = nr * nc
+    g = G(nr, nc, fd)
+    exp, cyc = g.area(outlet, inlets)
+    size = len(exp)
+    tag = "sized"
+    j = cs.grid(nr, nc, fd)
+    block = lambda b: b * (-(-(size + 1) // b))
+    nvals = [size + 1, rng.choice([size + 2, 2 * size + 3, block(256), block(1024), n + 2])]
+    if rng.random() < (0.25 if thorough else 0.12):
+        nvals.append(None)                                    # the default buffer of 10^6
+    for k, nval in enumerate(dict.fromkeys(nvals)):
+        # the flow-path table (len(area) rows) with every buffer size on the smaller areas, once on the large ones
+        cs.op(j, ["area", "py", outlet, inlets or None, nval, k == 0 or size <= 600], tag + "/" + kind)
+    cs.op(j, ["area", "x", outlet, inlets, size + 1], tag + "/" + kind)
+    cs.op(j, ["area", "x", outlet, inlets, size], tag + "/" + kind + "/short")
+    # vector queries of that length, and of the whole grid
+    cells = list(exp)
+    rng.shuffle(cells)
+    cs.op(j, ["down", "py", cells], tag)
+    cs.op(j, ["up", "py", cells], tag)
+    cs.op(j, ["down", "x", list(range(n))], tag)
+    cs.op(j, ["up", "x", list(range(n))], tag)
+    # a river of that many cells (the serpentine of the same size), exactly filling / one short of / inside the buffer
+    wn = rng.choice([1, 2, 7, 16])
+    wr = -(-(m + rng.randint(0, 2)) // wn)
+    sfd = serpentine(wr, wn)
+    order = snake_order(wr, wn)
+    start = order[len(order) - m]
+    j2 = cs.grid(wr, wn, sfd)
+    rv = [m, m + 1, rng.choice([m - 1, block(256), 2 * m])]
+    if rng.random() < (0.2 if thorough else 0.08):
+        rv.append(None)
+    for nval in dict.fromkeys(rv):
+        cs.op(j2, ["river", "py" if nval is None or rng.random() < 0.5 else "x", start, nval, 0.0, 0.0, 1.0], tag + "/river")
+    # flow paths over a list of that length handed straight to the kernel (walks far shorter than the list)
+    if m <= 600 or thorough:
+        fdc, oc = comb_grid(-(-m // 8), 8)
+        j3 = cs.grid(-(-m // 8), 8, fdc)
+        lst = [rng.randrange(len(fdc)) for _ in range(m)]
+        cs.op(j3, ["fpath", "x", oc, lst], tag + "/fp=any")
+
+
 def gen_inlets(rng, g, outlet, mode):
     n = g.n
     if mode == "none":
@@ -581,11 +792,25 @@ def add_grid_cases(cs, rng, nrows, ncols, fd, tag, api, full, py_share=0.0, outl
                     lst = list(exp)
                     rng.shuffle(lst)
                     cs.op(j, ["fpath", "x", o, lst], tag + "/fp=area")
+                    if full or rng.random() < 0.3:
+                        # the boundary of flowpath_length's hypothesis: a list of exactly as many cells as the chain of its
+                        # first cell has steps to the outlet (the kernel then drops the last step: theorem
+                        # flowpath_last_step_dropped), and one more (just enough)
+                        c0 = rng.choice([c for c in exp if c != o] or [o])
+                        e = expected_path(g, o, c0, n + 1)
+                        if e[0] == "outlet":
+                            for ln in (e[2] + e[3], e[2] + e[3] + 1):
+                                cs.op(j, ["fpath", "x", o, [c0] + [rng.randrange(n) for _ in range(ln - 1)]],
+                                      tag + "/fp=boundary")
         if full or rng.random() < 0.3:
             k = rng.randint(1, min(n, 6))
             lst = [rng.randrange(n) for _ in range(k)]
             cs.op(j, ["fpath", "x", o, lst], tag + "/fp=any")
     starts = cells if n <= 9 else rng.sample(cells, min(n, 6))
+    if full or rng.random() < 0.2:
+        # the chain itself, step by step through Catchment.downstream, against the functions the theorems are stated with
+        s0 = rng.choice(starts)
+        cs.op(j, ["chain", "py", rng.choice(outs), s0, rng.choice([1, 2, n, n + 3])], tag)
     for s in starts:
         xll, yll, csz = river_geom or (0.0, 0.0, 1.0)
         chain = 0
@@ -640,6 +865,14 @@ def gen_histories(rng, nr, nc, fd, outlet):
     if len(a0) >= 2:
         H.append(("failed_between", [["D", outlet, None, nv], ["F"], ["D", outlet, None, len(a0)], ["F"],
                                      ["D", others[0], None, nv], ["F"]]))
+    # the accessors idxcells_area / isin: before any delineation, after a good one, after an edit (the stored area
+    # stays), after a failed one (nothing stored), after the next good one
+    # (the failed call has valid arguments — a buffer one short —: what a call with arguments off the grid or nval < 1
+    # leaves behind is outside the property's quantifier)
+    failed = [["D", outlet, None, len(a0)], ["A"], ["I", cell]] if len(a0) >= 2 else []
+    H.append(("accessors", [["A"], ["I", cell], ["D", outlet, None, nv], ["A"], ["I", cell], ["I", outlet],
+                            ["I", others[0]], ["S", cell, code], ["I", cell], ["A"]] + failed +
+                           [["D", others[0], None, nv], ["A"], ["I", others[0]], ["I", cell]]))
     # queries, with the returned arrays overwritten in between
     cells = [rng.randrange(n) for _ in range(rng.randint(1, 4))]
     H.append(("queries", [["U", cells], ["E"], ["W", cells], ["E"], ["U", cells], ["S", cell, code], ["U", cells], ["W", cells]]))
@@ -744,6 +977,11 @@ def gen_cases(ctx, cs):
         n = nr * nc
         add_grid_cases(cs, rng, nr, nc, fd, "random", "py" if rng.random() < 0.4 else "x", False,
                        outlets=[rng.randrange(n) for _ in range(2)])
+    # ---- areas, rivers and cell lists of a prescribed LENGTH (block-size boundaries), on grids up to a few thousand cells
+    cs.flush()
+    for m in size_schedule(rng, th):
+        add_sized_cases(cs, rng, m, th)
+    cs.flush()
     # ---- histories on one object
     for it in range(ctx.scale(350, 3000)):
         r = rng.random()
@@ -825,7 +1063,14 @@ def err_only(sx):
     return "err" if sx.startswith("err") else sx
 
 
-def fpath_rows_canon(rows, mrows, end_col, len_col, m_end, m_len, m_cap):
+def sum_ulps(nsteps):
+    """tolerance for a length that is a rounded sum of `nsteps` step lengths: the kernel adds them one by one, an
+    equivalent implementation may use a closed form (#orth + #diag * sqrt 2) or another order — each of the nsteps - 1
+    additions rounds once, so two correct results can differ by about one ulp per step (4 ulp at least)"""
+    return max(4, nsteps)
+
+
+def fpath_rows_canon(rows, mrows, end_col, len_col, m_end, m_len, m_cap, m_n):
     """rows of a flow-path table vs the model's; rows whose walk the model reports as capped (no outlet, no exit
     within nval iterations: a cycle, or a list the property says nothing about) are only required to be finite"""
     a, b = [], []
@@ -836,7 +1081,7 @@ def fpath_rows_canon(rows, mrows, end_col, len_col, m_end, m_len, m_cap):
             b.append("capped:bounded")
         else:
             a.append(f"{int(x[end_col])},{C.f2h(x[len_col])}")
-            b.append(f"{m[m_end]},{canon_float(x[len_col], C.h2f(m[m_len]))}")
+            b.append(f"{m[m_end]},{canon_float(x[len_col], C.h2f(m[m_len]), sum_ulps(int(m[m_n])))}")
     return ";".join(a), ";".join(b)
 
 
@@ -850,7 +1095,8 @@ def case_of(job, op):
 
 
 def body(ctx):
-    state = {"worker": Worker(ctx.native), "bad": {}, "etab": error_table(C.REPO), "grids": 0}
+    state = {"worker": Worker(ctx.native), "bad": {}, "etab": error_table(C.REPO), "grids": 0, "rng": ctx.rng}
+    count_check(ctx)
     cs = Cases(sink=lambda jobs, tags: process_block(ctx, state, jobs, tags))
     try:
         # ---- replay / corpus first
@@ -875,7 +1121,7 @@ def body(ctx):
     ctx.assumptions += [
         "scipy.ndimage.binary_fill_holes is a parameter of the model (theorem: any fill that keeps the mask contains the area)",
         "theorems are exact (Int / commutative ring with sqrt 1 = 1, sqrt 0 = 0, instantiated at the reals); IEEE rounding of "
-        "the accumulated lengths is covered by the Float correspondence (within 4 ulp, in practice bit-equal)",
+        "the accumulated lengths is covered by the Float correspondence (within max(4, #steps) ulp, in practice bit-equal)",
         "flow-direction arrays are int64 and C-contiguous, as Catchment.__init__ / the Cython wrappers enforce",
         "the flow-path theorem is about start cells whose chain first meets the outlet in fewer steps than cells were handed "
         "to the kernel — proved to hold for every cell of a delineated area (flowpath_on_area) — or leaves the grid before; "
@@ -939,12 +1185,19 @@ def process_block(ctx, state, jobs, tags):
                 nv = 1000000 if nval is None else nval
                 oracle_area(ctx, g, op, r, case, tag, nv)
                 impl = "ok:" + C.ilist(sorted(r["ok"])) if "ok" in r else "err"
-                reqs.append(f"area {gtok(job)} {outlet} {C.ilist(inlets)} {nv}")
+                # the Python call leaves idxinlets / nval at their defaults: the model does the same (delineateAreaPy)
+                itok = "none" if op[1] == "py" and op[3] is None else C.ilist(inlets)
+                ntok = "none" if op[1] == "py" and nval is None else str(nv)
+                reqs.append(f"area {gtok(job)} {outlet} {itok} {ntok}")
                 meta.append(("area", case, (impl, r, nv)))
                 if "filled" in r:
                     reqs.append(f"fillmask {nrows} {ncols} {C.ilist(r['ok'])}")
                     meta.append(("fillmask", case, r))
                 cyc_ = g.area(outlet, inlets)[1] if valid(n, outlet) and all(valid(n, c) for c in inlets) else True
+                if "ok" in r and not cyc_ and n <= 30 and state["rng"].random() < (1.0 if n <= 4 else 0.1):
+                    # the area as the property words it (brute force over the grid, theorem delineate_perm_reachArea)
+                    reqs.append(f"reach {gtok(job)} {outlet} {C.ilist(inlets)}")
+                    meta.append(("reach", case, r))
                 if "fpath_err" in r:
                     ctx.count(("fpath", gtok(job), str(op)), False, "fpath/error")
                     if not cyc_ and all(expected_path(g, outlet, c, len(r["ok"]) - 1)[0] != "cap" for c in r["ok"]):
@@ -966,10 +1219,20 @@ def process_block(ctx, state, jobs, tags):
                     oracle_fpath(ctx, g, outlet, cells, r["ok"], case, tag, natural=tag.endswith("fp=area"))
                     reqs.append(f"fpath {gtok(job)} {outlet} {C.ilist(cells)}")
                     meta.append(("fpath", case, r["ok"]))
+                    if ncols != 2 and state["rng"].random() < 0.1:
+                        # off 2-column grids the step classification of the pinned kernel (isDiagPinned) gives the same
+                        # table (theorem pinned_wrong_only_on_two_columns): run it against the real code as well
+                        reqs.append(f"fpath_pinned {gtok(job)} {outlet} {C.ilist(cells)}")
+                        meta.append(("fpath", case, r["ok"]))
                 else:
                     ctx.count(("fpath", gtok(job), str(op)), False, "fpath/error")
                     reqs.append(f"fpath {gtok(job)} {outlet} {C.ilist(cells)}")
                     meta.append(("fpath_err", case, r))
+            elif kind == "chain":
+                outlet, start, nn = op[2], op[3], op[4]
+                oracle_chain(ctx, g, op, r, case, tag)
+                reqs.append(f"chain {gtok(job)} {outlet} {start} {nn}")
+                meta.append(("chain", case, r))
             elif kind == "hist":
                 mreq, mmeta = history_steps(ctx, etab, nrows, ncols, fd, op, r, case, tag)
                 reqs.append(f"hist {gtok(job)} {';'.join(mreq)}")
@@ -1004,6 +1267,28 @@ def process_block(ctx, state, jobs, tags):
                 rows = rep[3:].strip("[]").split(";") if rep != "ok:[]" else []
                 rep = "ok:" + ";".join(C.ilist(sorted(int(t) for t in row.split(","))) for row in rows)
             ctx.compare("C06 up", case, impl, err_only(rep))
+        elif what == "reach":
+            ctx.compare("C06 reach (area = brute-force reachability set)", case, C.ilist(sorted(impl["ok"])),
+                        C.ilist(sorted(int(t) for t in C.parse_list(rep))))
+        elif what == "chain":
+            r = impl
+            if "ok" not in r:
+                ctx.compare("C06 chain", case, "err", rep)
+                continue
+            outlet, start, nn = case["op"][2], case["op"][3], case["op"][4]
+            cells = r["ok"]
+            # how many of the first nn flow-path iterations go on, from the chain the real code gave
+            goes = 0
+            while goes < nn and goes + 1 < len(cells) and cells[goes + 1] != outlet:
+                goes += 1
+            mcells, msteps, mlast, mgoes, mlen = rep.split(" ")
+            a = f"{C.ilist(cells[:nn])} {cells[:nn][-1] if cells[:nn] else start} {goes}"
+            b = f"{mcells} {mlast} {mgoes}"
+            ctx.compare("C06 chain (chainCells / chainCell / goesOnCount vs iterated Catchment.downstream)", case, a, b)
+            if "river" in r and r["river"] == cells[:nn] and len(cells) <= nn:
+                # the chain ended within nn cells: the river's last distance is the length of the chain's steps
+                ctx.compare("C06 chain length (pathLength of chainSteps vs the river's last distance)", case,
+                            C.f2h(r["dist"]), canon_float(r["dist"], C.h2f(mlen), sum_ulps(len(cells))))
         elif what == "fillmask":
             r = impl
             if rep == "none":
@@ -1020,7 +1305,7 @@ def process_block(ctx, state, jobs, tags):
             rows = impl
             mrows = [t.split(",") for t in rep.strip("[]").split(";")] if rep != "[]" else []
             if len(rows) == len(mrows):
-                a, b = fpath_rows_canon(rows, mrows, 1, 2, 0, 1, 4)
+                a, b = fpath_rows_canon(rows, mrows, 1, 2, 0, 1, 4, 2)
             else:
                 a, b = f"{len(rows)} rows", f"{len(mrows)} rows"
             ctx.compare("C06 fpath", case, a, b)
@@ -1040,9 +1325,13 @@ def process_block(ctx, state, jobs, tags):
                 istr = err_only(istr)
                 if skind == "D":
                     # after a delineation whose outcome the property leaves open (cycle through the outlet) the object
-                    # may hold an area or none: what compute_flowpathlengths then does is open too, until the next D
-                    open_state = flag == "cyc"
-                if skind == "F" and open_state:
+                    # may hold an area or none: what compute_flowpathlengths then does is open too, until the next D;
+                    # likewise after a call with arguments outside the quantifier (cells off the grid, nval < 1)
+                    st_ = case["op"][2][i]
+                    n_ = case["nrows"] * case["ncols"]
+                    open_state = flag == "cyc" or not (valid(n_, st_[1]) and all(valid(n_, c) for c in (st_[2] or []))
+                                                       and st_[3] >= 1)
+                if skind in ("F", "A", "I") and open_state:
                     continue
                 if flag == "cyc" and skind in ("D", "R"):
                     ctx.compare("C06 hist/" + skind + " (flow cycle: error or bounded result)", c2, open_outcome(raw, nv),
@@ -1050,7 +1339,7 @@ def process_block(ctx, state, jobs, tags):
                     continue
                 if mrep.startswith("err:"):
                     mrep = "err"
-                elif skind in ("D",):
+                elif skind in ("D", "A"):
                     mrep = "ok:" + C.ilist(sorted(int(t) for t in C.parse_list(mrep[3:])))
                 elif skind == "U":
                     rr = mrep[3:].strip("[]").split(";") if mrep != "ok:[]" else []
@@ -1063,11 +1352,12 @@ def process_block(ctx, state, jobs, tags):
                         if any(m[3] == "1" for m in mrows):
                             mrep = "err"
                     elif len(mrows) == len(rows) and [int(x[0]) for x in rows] == [int(m[0]) for m in mrows]:
-                        istr, mrep = fpath_rows_canon(rows, mrows, 1, 2, 1, 2, 3)
+                        istr, mrep = fpath_rows_canon(rows, mrows, 1, 2, 1, 2, 3, 4)
                 elif skind == "R" and rows is not None:
                     mrows = [t.split(",") for t in mrep[3:].strip("[]").split(";")] if mrep != "ok:[]" else []
                     if len(mrows) == len(rows):
-                        mrep = "ok:" + ";".join(f"{m[0]},{canon_float(x[1], C.h2f(m[1]))},{m[2]},{m[3]}" for x, m in zip(rows, mrows))
+                        mrep = "ok:" + ";".join(f"{m[0]},{canon_float(x[1], C.h2f(m[1]), sum_ulps(k))},{m[2]},{m[3]}"
+                                                for k, (x, m) in enumerate(zip(rows, mrows)))
                 ctx.compare("C06 hist/" + skind, c2, istr, mrep)
         elif what == "river":
             r, nv = impl
@@ -1086,8 +1376,8 @@ def process_block(ctx, state, jobs, tags):
             mrows = [t.split(",") for t in rep[3:].strip("[]").split(";")] if rep != "ok:[]" else []
             a = ";".join(f"{int(x[0])},{C.f2h(x[1])},{int(x[2])},{int(x[3])},{C.f2h(x[4])},{C.f2h(x[5])}" for x in rows)
             if len(rows) == len(mrows):
-                b = ";".join(f"{m[0]},{canon_float(x[1], C.h2f(m[1]))},{m[2]},{m[3]},{canon_float(x[4], C.h2f(m[4]))},"
-                             f"{canon_float(x[5], C.h2f(m[5]))}" for x, m in zip(rows, mrows))
+                b = ";".join(f"{m[0]},{canon_float(x[1], C.h2f(m[1]), sum_ulps(k))},{m[2]},{m[3]},{canon_float(x[4], C.h2f(m[4]))},"
+                             f"{canon_float(x[5], C.h2f(m[5]))}" for k, (x, m) in enumerate(zip(rows, mrows)))
             else:
                 b = rep[3:]
             ctx.compare("C06 river", case, a, b)
@@ -1103,7 +1393,7 @@ def history_steps(ctx, etab, nrows, ncols, fd0, op, r, case, tag):
     steps, res = op[2], r.get("steps", [])
     cur = list(fd0)
     g = G(nrows, ncols, cur)
-    outlet, area, area_ok = None, None, False
+    outlet, area, area_ok, state_open = None, None, False, False
     mreq, mmeta = [], []
     n = nrows * ncols
     if len(res) != len(steps):
@@ -1135,6 +1425,9 @@ def history_steps(ctx, etab, nrows, ncols, fd0, op, r, case, tag):
             oracle_area(ctx, g, ["area", "py", o, inl, nval], rr, c2, f"hist.{name}", nval)
             area_ok = "ok" in rr
             area = rr.get("ok")
+            # a call with arguments outside the quantifier (cells off the grid, nval < 1): what the object holds afterwards
+            # is not the property's business (rejected before or after the old area is dropped) — until the next good call
+            state_open = not (valid(n, o) and all(valid(n, c) for c in inl) and nval >= 1)
             if "filled" in rr:
                 oracle_filled(ctx, c2, rr)
             istr = "ok:" + C.ilist(sorted(rr["ok"])) if "ok" in rr else "err"
@@ -1144,7 +1437,9 @@ def history_steps(ctx, etab, nrows, ncols, fd0, op, r, case, tag):
             if "ok" in rr:
                 rows = sorted(rr["ok"], key=lambda x: x[0])
                 cells = [int(x[0]) for x in rr["ok"]]
-                if area_ok and outlet is not None:
+                if state_open:
+                    pass
+                elif area_ok and outlet is not None:
                     if cells != area:
                         ctx.finding("fpath/start_column", "flowpathlengths does not list the cells of the area delineated last, "
                                     "in order (a table of an earlier delineation?)", {**c2, "cells": cells, "area": area})
@@ -1160,7 +1455,7 @@ def history_steps(ctx, etab, nrows, ncols, fd0, op, r, case, tag):
                 mmeta.append((i, "F", istr, rows, rr, 0))
             else:
                 ctx.count(("hist", str(c2)), False, "hist/F/error")
-                if area_ok and "err" in rr:
+                if area_ok and "err" in rr and not state_open:
                     exp_, cyc_ = g.area(outlet, []) if valid(n, outlet) else ([], True)
                     if not cyc_ and area and all(expected_path(g, outlet, c, len(area) - 1)[0] != "cap" for c in area):
                         ctx.finding("fpath/error_on_area", "compute_flowpathlengths raises on a delineated area none of whose "
@@ -1190,6 +1485,33 @@ def history_steps(ctx, etab, nrows, ncols, fd0, op, r, case, tag):
             istr = "ok:" + ";".join(C.ilist(sorted(row)) for row in rr["ok"]) if "ok" in rr else "err"
             mreq.append(f"U:{C.ilist(st[1])}")
             mmeta.append((i, "U", istr, None, rr, 0))
+        elif k == "A":
+            # the accessor answers with the area the last delineation returned, and raises when it failed / none was made
+            ctx.count(("hist", str(c2)), "ok" in rr, "hist/A/" + ("stored" if area_ok else "none"))
+            if state_open:
+                pass
+            elif "ok" in rr and not area_ok:
+                ctx.finding("area/accessor_without_area", "idxcells_area answers although the last delineation failed "
+                            "(or none was made)", c2)
+            elif "ok" in rr and rr["ok"] != area:
+                ctx.finding("area/accessor_not_last_area", "idxcells_area is not the area the last delineation returned",
+                            {**c2, "got": rr["ok"], "area": area})
+            elif "ok" not in rr and area_ok:
+                ctx.finding("area/accessor_raises", "idxcells_area raises although the last delineation succeeded", c2)
+            mreq.append("A")
+            mmeta.append((i, "A", "ok:" + C.ilist(sorted(rr["ok"])) if "ok" in rr else "err", None, rr, 0))
+        elif k == "I":
+            ctx.count(("hist", str(c2)), "ok" in rr, "hist/I/" + ("stored" if area_ok else "none"))
+            if state_open:
+                pass
+            elif "ok" in rr and area_ok and valid(n, st[1]) and rr["ok"] != (st[1] in area):
+                ctx.finding("area/isin", "isin(cell) is not membership in the area the last delineation returned",
+                            {**c2, "got": rr["ok"], "area": area})
+            elif "ok" in rr and not area_ok:
+                ctx.finding("area/accessor_without_area", "isin answers although the last delineation failed "
+                            "(or none was made)", c2)
+            mreq.append(f"I:{st[1]}")
+            mmeta.append((i, "I", ("ok:1" if rr["ok"] else "ok:0") if "ok" in rr else "err", None, rr, 0))
         elif k == "R":
             oracle_river(ctx, g, ["river", "py", st[1], st[2], 0.0, 0.0, 1.0], rr, c2, f"hist.{name}", st[2])
             if "ok" in rr:
@@ -1206,7 +1528,7 @@ def history_steps(ctx, etab, nrows, ncols, fd0, op, r, case, tag):
 def oracle_down(ctx, g, op, r, case, tag):
     cells = op[2]
     allvalid = all(valid(g.n, c) for c in cells)
-    ctx.count(("down", g.nrows, g.ncols, tuple(g.fd), tuple(cells)), allvalid and len(cells) > 0, f"down/{tag}")
+    ctx.count(("down", g.nrows, g.ncols, g.key, tuple(cells)), allvalid and len(cells) > 0, f"down/{tag}")
     if not allvalid:
         return          # cells off the grid are outside the property's quantifier: correspondence only
     if "err" in r:
@@ -1224,7 +1546,7 @@ def oracle_down(ctx, g, op, r, case, tag):
 def oracle_up(ctx, g, op, r, case, tag):
     cells = op[2]
     allvalid = all(valid(g.n, c) for c in cells)
-    ctx.count(("up", g.nrows, g.ncols, tuple(g.fd), tuple(cells)), allvalid and len(cells) > 0, f"up/{tag}")
+    ctx.count(("up", g.nrows, g.ncols, g.key, tuple(cells)), allvalid and len(cells) > 0, f"up/{tag}")
     if not allvalid:
         return          # outside the property's quantifier: correspondence only
     if "err" in r:
@@ -1247,7 +1569,7 @@ def oracle_area(ctx, g, op, r, case, tag, nval):
         return
     exp, cyc = g.area(outlet, inlets)
     branch = "cycle" if cyc else "empty" if not exp else "ok" if nval >= len(exp) + 1 else "short"
-    ctx.count(("area", g.nrows, g.ncols, tuple(g.fd), outlet, tuple(inlets), nval), "ok" in r and len(r["ok"]) > 0,
+    ctx.count(("area", g.nrows, g.ncols, g.key, outlet, tuple(inlets), nval), "ok" in r and len(r["ok"]) > 0,
               f"area/{tag.split('/')[0]}/{branch}", sample={**case, "reply": r} if branch == "ok" and len(exp) > 2 else None)
     if cyc:
         # error or bounded result
@@ -1315,7 +1637,7 @@ def oracle_fpath(ctx, g, outlet, cells, rows, case, tag, natural):
             ctx.count(("fp", str(case), c), False, "fpath/invalid_start")
             continue
         e = expected_path(g, outlet, c, nval - 1) if nval >= 1 else ("cap",)
-        ctx.count(("fp", g.nrows, g.ncols, tuple(g.fd), outlet, c, nval), e[0] == "outlet", f"fpath/{tag.split('/')[-1]}/{e[0]}")
+        ctx.count(("fp", g.nrows, g.ncols, g.key, outlet, c, nval), e[0] == "outlet", f"fpath/{tag.split('/')[-1]}/{e[0]}")
         if int(start) != c:
             ctx.finding("fpath/start_column", "flow path row does not start at its cell", {**case, "cell": c, "row": row})
         if not math.isfinite(length) or length < 0:
@@ -1323,7 +1645,9 @@ def oracle_fpath(ctx, g, outlet, cells, rows, case, tag, natural):
         if e[0] == "outlet":
             # the chain reaches the outlet in fewer than nval steps: end and length are fixed by the property
             want = e[2] + SQRT2 * e[3]
-            if int(end) != outlet or abs(length - want) > 1e-9 * max(1.0, want):
+            # a chain without diagonal steps is counted exactly (theorem length_orthogonal_exact); else a sum of roundings
+            off = length != float(e[2]) if e[3] == 0 else abs(length - want) > 1e-9 * max(1.0, want)
+            if int(end) != outlet or off:
                 two = g.ncols == 2 and abs(length - want) > 1e-9 and int(end) == outlet
                 sig = "fpath/diagonal_step_on_2_columns" if two else "fpath/length"
                 ctx.finding(sig, "flow path length is not (#orthogonal steps) + sqrt(2) (#diagonal steps) along the downstream chain "
@@ -1335,6 +1659,53 @@ def oracle_fpath(ctx, g, outlet, cells, rows, case, tag, natural):
         if natural and c != outlet and e[0] != "outlet":
             ctx.finding("fpath/area_cell_misses_outlet", "a cell of the area does not reach the outlet (oracle self-check)",
                         {**case, "cell": c})
+
+
+def oracle_chain(ctx, g, op, r, case, tag):
+    """iterated Catchment.downstream calls follow the oracle's graph; the river over the same cells lists them"""
+    outlet, start, nn = op[2], op[3], op[4]
+    if not valid(g.n, start):
+        ctx.count(("chain", str(case)), False, "chain/malformed")
+        return
+    if "ok" not in r:
+        ctx.finding("downstream/valid_cell_rejected", "downstream raises on a valid cell of a chain", case)
+        return
+    want, c = [], start
+    while len(want) < nn + 1:
+        want.append(c)
+        c = g.down(c)
+        if c < 0:
+            break
+    ctx.count(("chain", g.nrows, g.ncols, g.key, start, nn), len(want) > 1, f"chain/{tag.split('/')[0]}")
+    if r["ok"] != want or (r.get("end") is not None and len(want) <= nn and r["end"] != c):
+        ctx.finding("downstream/chain", "calling downstream cell after cell does not follow the ESRI neighbours to the first "
+                    "sink / exit", {**case, "got": r["ok"][:50], "expected": want[:50]})
+        return
+    ended = len(want) <= nn
+    if ended and "river" in r and r["river"] != want[:nn]:
+        ctx.finding("river/not_downstream_chain", "the river cells are not the cells iterated downstream calls visit",
+                    {**case, "river": r["river"][:50], "chain": want[:50]})
+    if ended and "river_err" in r and nn >= 1:
+        ctx.finding("river/valid_start_rejected", "delineate_river raises on a chain that ends", case)
+
+
+def count_check(ctx):
+    """`countBy 1 n` / `countBy (1+1) n` of the model at Float are the doubles n and 2n (what length_rounded /
+    length_orthogonal_exact are stated with)"""
+    ns = [0, 1, 2, 3, 255, 256, 4097, 20000]
+    reps = ctx.lean.ask([f"count {n}" for n in ns])
+    for n, rep in zip(ns, reps):
+        ctx.compare("C06 count", {"n": n}, f"{C.f2h(float(n))} {C.f2h(float(2 * n))}", rep)
+    # the ESRI layout flowdir_table_is_esri is stated with (esriDx / esriDy / esriPos) against the oracle's own table and
+    # the FLOWDIRCODE array the real code hands to its kernels
+    from hydrodiy.gis.grid import FLOWDIRCODE
+    flat = [int(v) for v in FLOWDIRCODE.ravel()]
+    want = []
+    for m in range(8):
+        dr, dc = ESRI[2 ** m]
+        pos = 1 + dc + (1 + dr) * 3
+        want.append(f"{m},{dc},{dr},{pos},{flat[pos] if len(flat) == 9 else '?'},{flat[8 - pos] if len(flat) == 9 else '?'}")
+    ctx.compare("C06 esri layout", {"table": flat}, "[" + ";".join(want) + "]", ctx.lean.ask(["esri"])[0])
 
 
 def oracle_river(ctx, g, op, r, case, tag, nval):
@@ -1363,7 +1734,7 @@ def oracle_river(ctx, g, op, r, case, tag, nval):
         if c < 0:
             break
     rows = r["ok"]
-    ctx.count(("river", g.nrows, g.ncols, tuple(g.fd), start, nval), len(chain) > 1,
+    ctx.count(("river", g.nrows, g.ncols, g.key, start, nval), len(chain) > 1,
               f"river/{tag.split('/')[0]}/" + ("cyclic" if cyclic else "capped" if len(chain) == nval and c >= 0 else "ended"))
     got = [int(x[0]) for x in rows]
     if cyclic:
@@ -1376,16 +1747,28 @@ def oracle_river(ctx, g, op, r, case, tag, nval):
         ctx.finding("river/not_downstream_chain", "the river cells are not the downstream chain from the start cell "
                     "(up to nval cells, ending at the first sink / exit)", {**case, "got": got[:50], "expected": chain[:50]})
         return
-    dist = 0.0
+    dist, prev, ndiag = 0.0, 0.0, 0
     for i, x in enumerate(rows):
         cell, d, dx, dy, xx, yy = x
+        if not (d >= prev):
+            # never decreasing, never negative, rounding or not (theorem river_dist_monotone)
+            ctx.finding("river/distance_decreases", "the river distance decreases (or is negative / nan)",
+                        {**case, "row": i, "got": x, "previous": prev})
+            return
+        prev = d
         if i > 0:
             dr, dc = g.step_len(chain[i - 1], chain[i])
             dist += SQRT2 if dr and dc else 1.0
+            ndiag += 1 if dr and dc else 0
             wdx = chain[i - 1] % g.ncols - chain[i] % g.ncols
             wdy = chain[i - 1] // g.ncols - chain[i] // g.ncols
         else:
             wdx = wdy = 0
+        if ndiag == 0 and d != float(i):
+            # no diagonal step so far: the sum is a count, exact in double (theorem length_orthogonal_exact)
+            ctx.finding("river/distance", "river distance along orthogonal steps is not the exact number of steps",
+                        {**case, "row": i, "got": x, "expected": float(i)})
+            return
         if abs(d - dist) > 1e-9 * max(1.0, dist) or dx != wdx or dy != wdy:
             ctx.finding("river/distance", "river distance is not the cumulated 1 / sqrt(2) step length, or dx, dy are not the "
                         "column / row displacement of the step", {**case, "row": i, "got": x, "expected": [dist, wdx, wdy]})
